@@ -10,7 +10,14 @@
  *   wk rc=<cif_walk result> n=<callbacks made> log= <events> ord= <listing>
  *
  * events (every handle passed to a callback is queried inside the callback, so that ASan sees a stale handle):
- *   @cs | @ce | @bs <code> | @be <code> | @fs <code> | @fe <code>
+ *   @cs | @ce | @bs <code> <q> | @be <code> <q> | @fs <code> <q> | @fe <code> <q>
+ *     <q> = q:<ab>:<nf>:<nl>:<cf>:<il>  — what the container handle answers INSIDE the callback:
+ *       ab = cif_container_assert_block (0 for a data block, CIF_ARGUMENT_ERROR for a save frame)
+ *       nf / nl = number of frames / loops cif_container_get_all_frames / _loops report through it
+ *       cf = '-' without frames, else <rc>,<code'>: cif_container_get_frame(handle, code of the first frame listed) and the code
+ *            of the frame handle it returns (the look-up goes through the handle's own id)
+ *       il = '-' without loops / names, else <name>,<rc>,<category>: cif_container_get_item_loop(handle, first name of the
+ *            first loop listed) and the category of the loop it returns
  *   @ls <category|~> <n> <name>{n}   | @le (same)                      names as cif_loop_get_names reports them
  *   @ps <m> (<name> <value>){m}      | @pe (same)                      names as cif_packet_get_names reports them
  *   @it <name> <value>                                                 name and value as passed to the callback
@@ -34,10 +41,54 @@ static int answer(void) {
     return r;
 }
 
+/* the queries a handler may make on the container handle it is given */
+static void log_queries(cif_container_tp *c) {
+    cif_frame_tp **frames = NULL;
+    cif_loop_tp **loops = NULL;
+    int nf = -1, nl = -1, i;
+    fprintf(lg, " q:%d", cif_container_assert_block(c));
+    if (cif_container_get_all_frames(c, &frames) == CIF_OK) { for (nf = 0; frames[nf]; nf++) ; }
+    if (cif_container_get_all_loops(c, &loops) == CIF_OK) { for (nl = 0; loops[nl]; nl++) ; }
+    fprintf(lg, ":%d:%d:", nf, nl);
+    if (nf > 0) {
+        UChar *code = NULL, *code2 = NULL;
+        cif_frame_tp *f2 = NULL;
+        int rc = CIF_ERROR;
+        if (cif_container_get_code(frames[0], &code) == CIF_OK) rc = cif_container_get_frame(c, code, &f2);
+        fprintf(lg, "%d,", rc);
+        if (rc == CIF_OK && cif_container_get_code(f2, &code2) == CIF_OK) { fhex(lg, code2); free(code2); } else fprintf(lg, "!");
+        if (f2) cif_container_free(f2);
+        free(code);
+    } else fprintf(lg, "-");
+    fprintf(lg, ":");
+    {
+        UChar **names = NULL;
+        int done = 0;
+        if (nl > 0 && cif_loop_get_names(loops[0], &names) == CIF_OK) {
+            if (names[0]) {
+                cif_loop_tp *l2 = NULL;
+                UChar *cat = NULL;
+                int rc = cif_container_get_item_loop(c, names[0], &l2);
+                fhex(lg, names[0]);
+                fprintf(lg, ",%d,", rc);
+                if (rc == CIF_OK && cif_loop_get_category(l2, &cat) == CIF_OK) { fhex(lg, cat); free(cat); } else fprintf(lg, "!");
+                if (l2) cif_loop_free(l2);
+                done = 1;
+            }
+            for (i = 0; names[i]; i++) free(names[i]);
+            free(names);
+        }
+        if (!done) fprintf(lg, "-");
+    }
+    if (frames) { for (i = 0; frames[i]; i++) cif_container_free(frames[i]); free(frames); }
+    if (loops) { for (i = 0; loops[i]; i++) cif_loop_free(loops[i]); free(loops); }
+}
+
 static void log_code(const char *tag, cif_container_tp *c) {
     UChar *code = NULL;
     fprintf(lg, " %s ", tag);
     if (cif_container_get_code(c, &code) == CIF_OK) { fhex(lg, code); free(code); } else fprintf(lg, "!");
+    log_queries(c);
 }
 
 static void log_loop(const char *tag, cif_loop_tp *loop) {
